@@ -45,6 +45,9 @@ fn body(file_level_using: bool) -> (String, Vec<i32>, Vec<i32>, Vec<i32>) {
         ("        total = a.mul(b).div(2);".into(), "S"),
         ("        total = a.sub(b, \"underflow\");".into(), "S"),
         ("        total = SafeMath.mul(a, b);".into(), "S"),
+        ("        total = 10 ** a.sub(b);".into(), "S"),
+        ("        total %= a.div(b);".into(), "S"),
+        ("        total = b > 0 ? a.mul(b) : (b << a.add(1));".into(), "S"),
         ("        total = a.mod(b);".into(), ""),
         ("        total = add(a, b);".into(), ""),
         ("        require(a > b);".into(), ""),
